@@ -31,7 +31,7 @@ MANIFEST = {
 GEN = ["OptDev"]
 RULE = ("cases = EDFA calls on random optical fields (N in {1,2,3,5,8,16,33,64,257}, 1/2 pol, incoming noise none/random/zero-sum/zero, "
         "dtype complex/float/int) x G_dB in [0,40] (incl. 0 and 40) x NF_dB in [3,10] x gv(sps,R,wavelength) set explicitly x numpy seed; "
-        "plus BW cases (composition with BPF), non-optical inputs (ndarray, electrical_signal, list, scalar, None, binary_sequence) and "
+        "plus BW cases (BW partly from a small fixed set so that it recurs under different sampling rates; reference = Bessel filter designed afresh by scipy for the rate in force), BW histories (one BW under 2-3 sampling rates in sequence and back, within one process), non-optical inputs (ndarray, electrical_signal, list, scalar, None, binary_sequence) and "
         "ASE soaks of 2^16..2^18 samples. non-trivial = accepted call with N>=2, non-zero field; distinct by (n_pol, noise kind, dtype, N, G, NF, gv)")
 PARTIAL = [
     "sample ASE power = P_ase, zero mean, equal variance P_ase/4 of the four real components and their mutual independence: "
@@ -53,6 +53,7 @@ BUDGET = {"quick": 120, "thorough": 900}
 EXHAUSTIVE = {"quick": False, "thorough": False}
 
 LENS = [1, 2, 3, 5, 8, 16, 33, 64, 257]
+BW_FIXED = [2e9, 3e9, 4e9, 10e9, 25e9]
 BAD_INPUTS = ["ndarray", "ndarray2d", "esig", "list", "float", "int", "none", "binseq", "str", "complex"]
 
 
@@ -83,9 +84,26 @@ def gen_cases(rng, tier):
         n = rng.choice([16, 17, 33, 64, 128, 257, 8, 15])       # 4th-order Bessel: padding 15 -> rows of <= 15 samples are rejected
         g = _gvspec(rng)
         G, NF = _gnf(rng)
+        fs_ = g["sps"] * g["R"]
+        bw = rng.uniform(0.05, 0.8) * fs_
+        if rng.random() < 0.5:
+            # a small fixed set, so that the same BW value recurs in one process under different sampling rates
+            fit = [b for b in BW_FIXED if b < 0.9 * fs_]
+            bw = rng.choice(fit) if fit else bw
         cases.append({"kind": "edfa_bw", "field": F.gen_field(rng, n, rng.choice([1, 2]), rng.choice(["none", "random", "random", "zerosum"]),
                                                                 rng.choice(["complex", "complex", "float"]), rng.choice([1.0, 1e-3])),
-                      "G": G, "NF": NF, "BW": rng.uniform(0.05, 0.8) * g["sps"] * g["R"], "gv": g, "np_seed": rng.randrange(1 << 31)})
+                      "G": G, "NF": NF, "BW": bw, "gv": g, "np_seed": rng.randrange(1 << 31)})
+    # histories: the SAME BW under 2-3 different sampling rates in sequence and back to the first, within one run_impl
+    for _ in range(8 if tier == "quick" else 60):
+        n = rng.choice([16, 33, 64, 128])
+        rates = rng.sample([(4, 1e9), (8, 1e9), (16, 1e9), (32, 1e9), (4, 2.5e9), (16, 2.5e9), (8, 10e9), (64, 1e9)], rng.choice([2, 3]))
+        seq = rates + [rates[0]]
+        fmin = min(a * b for a, b in seq)
+        bw = rng.choice([b for b in BW_FIXED if b < 0.9 * fmin] + [rng.uniform(0.1, 0.85) * fmin])
+        G, NF = _gnf(rng)
+        cases.append({"kind": "edfa_hist", "field": F.gen_field(rng, n, rng.choice([1, 2]), rng.choice(["none", "random", "zerosum"]), "complex", 1.0),
+                      "G": G, "NF": NF, "BW": bw, "seq": [{"sps": a, "R": b, "wavelength": 1550e-9} for a, b in seq],
+                      "gv": {"sps": seq[0][0], "R": seq[0][1], "wavelength": 1550e-9}, "np_seed": rng.randrange(1 << 31)})
     for b in BAD_INPUTS:
         G, NF = _gnf(rng)
         cases.append({"kind": "edfa_bad", "bad": b, "field": None, "G": G, "NF": NF, "BW": None, "gv": _gvspec(rng),
@@ -99,6 +117,9 @@ def gen_cases(rng, tier):
             cases.append({"kind": "soak", "field": fld, "G": rng.choice([20.0, 30.0, rng.uniform(5, 40)]), "NF": rng.uniform(3, 10),
                           "BW": None, "gv": _gvspec(rng), "np_seed": rng.randrange(1 << 31)})
     rng.shuffle(cases)
+    # histories first: a violation that depends on what the process did before is then first reported on a self-contained
+    # (replayable) case rather than on an ordinary case that merely inherited the state
+    cases.sort(key=lambda c: c["kind"] != "edfa_hist")
     return cases
 
 
@@ -124,6 +145,65 @@ def _call(fn, *a, **k):
         return None, {"status": "err", "err": exc_enum(e), "detail": repr(e)[:200]}
 
 
+def _fresh_bpf(y, bw, fs, order=4):
+    """the documented optical filter applied by scipy itself, designed NOW for the sampling rate in force (unspied originals):
+    an n-th order Bessel low-pass (norm='mag') of cut-off BW/2, forward-backward; JSON dump or error record"""
+    import scipy.signal as ssg
+    try:
+        sos = ssg.bessel(N=order, Wn=bw / 2, btype="low", fs=fs, output="sos", norm="mag")
+        sig = ssg.sosfiltfilt(sos, np.asarray(y.signal), axis=-1)
+        noi = None if y.noise is None else ssg.sosfiltfilt(sos, np.asarray(y.noise), axis=-1)
+        return {"status": "ok", "sig": F.rows_of_array(sig), "noise": None if noi is None else F.rows_of_array(noi)}
+    except Exception as e:  # noqa
+        return {"status": "err", "err": exc_enum(e), "detail": repr(e)[:200]}
+
+
+def _run_hist(case, res):
+    """EDFA(x, G, NF, BW) with one BW under a sequence of sampling rates (gv re-configured in between, back to the first at the end)"""
+    from opticomlib.typing import gv
+    import opticomlib.devices as dev
+    import scipy.constants as sc
+    from harness.props import c11
+    x = F.build_field(case["field"])
+    orig = np.random.randn
+    steps = []
+    res["steps"] = steps
+    res["main"] = {"status": "ok"}
+    for i, g in enumerate(case["seq"]):
+        st = {"i": i}
+        steps.append(st)
+        gv.clean()
+        gv(sps=g["sps"], R=g["R"], wavelength=g["wavelength"])
+        st.update(h=float(sc.h), f0=float(gv.f0), fs=float(gv.fs))
+        rec = []
+
+        def spy(*shape):
+            v = orig(*shape)
+            rec.append(v)
+            return v
+        np.random.seed(case["np_seed"] + i)
+        np.random.randn = spy
+        try:
+            y0, err = _call(dev.EDFA, x, case["G"], case["NF"])
+        finally:
+            np.random.randn = orig
+        st["unfiltered"] = err if err else {"status": "ok", **F.dump_signal(y0)}
+        if err or len(rec) != 1 or rec[0].shape != (4, case["field"]["n"]):
+            continue
+        draw = rec[0]
+        st["draw"] = [[float(v) for v in row] for row in draw]
+        np.random.randn = lambda *shape: draw.copy()
+        try:
+            with c11._Spy(dev) as fspy:
+                yb, err = _call(dev.EDFA, x, case["G"], case["NF"], case["BW"])
+                fspy.on = False
+                st["fparams"], st["fremarks"] = c11._params(fspy)
+        finally:
+            np.random.randn = orig
+        st["bw"] = err if err else {"status": "ok", **F.dump_signal(yb)}
+        st["ref"] = _fresh_bpf(y0, case["BW"], st["fs"])
+
+
 def run_impl(case):
     from opticomlib.typing import gv, optical_signal
     from opticomlib.devices import EDFA, BPF
@@ -140,6 +220,9 @@ def run_impl(case):
     try:
         with warnings.catch_warnings():
             warnings.simplefilter("ignore")
+            if case["kind"] == "edfa_hist":
+                _run_hist(case, res)
+                return res
             g = case["gv"]
             gv(sps=g["sps"], R=g["R"], wavelength=g["wavelength"])
             res.update(h=float(sc.h), f0=float(gv.f0), fs=float(gv.fs))
@@ -184,6 +267,7 @@ def run_impl(case):
                 res["bw"] = err if err else {"status": "ok", **F.dump_signal(yb)}
                 yf, err = _call(BPF, y, case["BW"])
                 res["bpf"] = err if err else {"status": "ok", **F.dump_signal(yf)}
+                res["ref"] = _fresh_bpf(y, case["BW"], res["fs"])
             after = F.dump_signal(x)
             if case["field"]["dtype"] == "complex" and (after["sig"] != case["field"]["sig"] or after["noise"] != case["field"]["noise"]):
                 res["input_modified"] = True
@@ -210,9 +294,24 @@ def _soak_stats(y, n):
 # model side
 # ------------------------------------------------------------------------------------------------
 
+def _secs(p):
+    secs = [str(len(p["sos"]))]
+    for row, z in zip(p["sos"], p["zi"]):
+        secs += [enc_f(row[0]), enc_f(row[1]), enc_f(row[2]), enc_f(row[4]), enc_f(row[5]), enc_f(z[0]), enc_f(z[1])]
+    return f"{p['edge']} " + " ".join(secs)
+
+
 def model_requests(case, res):
     if res.get("status") != "ok" or "main" not in res:
         return []
+    if case["kind"] == "edfa_hist":
+        reqs = []
+        for st in res.get("steps", []):
+            if st.get("fparams") and "draw" in st:
+                consts = " ".join([enc_f(case["G"]), enc_f(case["NF"]), enc_f(st["h"]), enc_f(st["f0"]), enc_f(st["fs"])])
+                reqs.append("edfa.runbw " + consts + " " + " ".join(enc_flist(r) for r in st["draw"]) + " " + _secs(st["fparams"]) + " "
+                            + F.enc_field(case["field"]["sig"], case["field"]["noise"]))
+        return reqs
     consts = " ".join([enc_f(case["G"]), enc_f(case["NF"]), enc_f(res["h"]), enc_f(res["f0"]), enc_f(res["fs"])])
     if case["kind"] == "edfa_bad":
         return ["edfa.run 0 " + consts + " 0 0 0 0"]
@@ -256,6 +355,17 @@ def _compare_bw(case, res, rep):
 
 
 def compare(case, res, reqs, replies):
+    if case["kind"] == "edfa_hist":
+        out, pos = [], 0
+        for st in res.get("steps", []):
+            tag = f"history step {st['i']} (fs={st.get('fs', 0):.4g}): "
+            if st.get("fparams") and "draw" in st:
+                sub = {"bw": st.get("bw"), "fremarks": st.get("fremarks"), "main": st["unfiltered"]}
+                out += [tag + d for d in _compare_bw(case, sub, replies[pos])]
+                pos += 1
+            elif (st.get("bw") or {}).get("status") == "ok":
+                out.append(tag + "a filtered signal was returned but scipy.signal.sosfiltfilt was never observed")
+        return out
     pre = []
     if reqs and reqs[0].startswith("edfa.runbw"):
         pre = _compare_bw(case, res, replies[0])
@@ -316,6 +426,28 @@ def _p_ase(case, res):
     return 10.0 ** (case["NF"] / 10.0) * res["h"] * res["f0"] * (10.0 ** (case["G"] / 10.0) - 1.0) * res["fs"]
 
 
+def _oracle_ref(tag, un, bw, ref):
+    """`with a bandwidth argument the whole output is band-limited by the optical filter`: the output must be the documented
+    Bessel filter — designed by scipy for the sampling rate in force NOW — of the unfiltered output on the same draw"""
+    if not un or not bw or not ref or un.get("status") != "ok":
+        return []
+    if bw.get("status") == "timeout":
+        return [("C10:timeout", f"{tag}: EDFA(..., BW) did not return")]
+    if ref["status"] == "err":
+        if not (bw.get("status") == "err" and bw.get("err") == ref["err"]):
+            return [("C10:bw-short", f"{tag}: scipy rejects the row ({ref['err']}) but EDFA(x, BW) gives {str(bw)[:80]}")]
+        return []
+    if bw.get("status") != "ok":
+        return [("C10:bw-accept", f"{tag}: EDFA(..., BW) failed: {str(bw)[:120]}")]
+    sc = max(F.maxabs(F.c_rows(un["sig"]), None if un["noise"] is None else F.c_rows(un["noise"])), 1e-300)
+    d = F.diff_fields("output vs bessel(BW/2, fs=gv.fs) applied to the unfiltered output", F.c_rows(bw["sig"]),
+                      None if bw["noise"] is None else F.c_rows(bw["noise"]), F.c_rows(ref["sig"]),
+                      None if ref["noise"] is None else F.c_rows(ref["noise"]), sc)
+    if d:
+        return [("C10:bw-filter", f"{tag}: " + "; ".join(d)[:300])]
+    return []
+
+
 def oracle(case, res):
     v = []
     if res.get("status") != "ok":
@@ -323,6 +455,11 @@ def oracle(case, res):
     m = res["main"]
     if m["status"] == "timeout":
         return [("C10:timeout", "EDFA did not return")]
+    if case["kind"] == "edfa_hist":
+        for st in res.get("steps", []):
+            tag = f"call {st['i']} of the history {[g['sps'] * g['R'] for g in case['seq']]} (fs={st.get('fs', 0):.4g}, BW={case['BW']:.4g})"
+            v += _oracle_ref(tag, st.get("unfiltered"), st.get("bw"), st.get("ref"))
+        return v
     if case["kind"] == "edfa_bad":
         if not (m["status"] == "err" and m["err"] == "TypeError"):
             v.append((f"C10:type-error:{case['bad']}", f"EDFA({case['bad']}) must raise TypeError, got {str(m)[:120]}"))
@@ -403,8 +540,9 @@ def oracle(case, res):
             k = int(np.argmax(np.abs(comp - s * d)))
             v.append(("C10:ase-scale", f"the real components of the ASE are not the unit-variance draws times sqrt(NF*h*f0*(G-1)*fs/4) = {s:.6g} "
                                        f"(P_ase={P:.6g}); e.g. order statistic {k}: {comp[k]:.6g} vs {s * d[k]:.6g}"))
-    # BW: composition with the optical filter
+    # BW: the documented filter for the rate in force (fresh scipy design), and composition with the library's own BPF
     if case["BW"] is not None:
+        v += _oracle_ref(f"fs={res['fs']:.4g}, BW={case['BW']:.4g}", m, res.get("bw"), res.get("ref"))
         bw, bp = res.get("bw", {}), res.get("bpf", {})
         if bp.get("status") == "err":
             # rows not longer than the filter's padding: scipy rejects them, with or without the amplifier around
@@ -425,6 +563,10 @@ def features(case, res):
     f = ["kind=" + case["kind"], "status=" + str(res.get("status"))]
     m = res.get("main", {})
     f.append("result=" + str(m.get("status")) + (":" + m["err"] if m.get("status") == "err" else ""))
+    if case["kind"] == "edfa_hist":
+        f.append(f"history={len(case['seq'])}")
+        for st in res.get("steps", []):
+            f.append("hist-step=" + str((st.get("bw") or {}).get("status")))
     if case["kind"] == "edfa_bad":
         f.append("bad=" + case["bad"])
     else:
@@ -451,4 +593,5 @@ def nontrivial_key(case, res):
     if fl["sig"] is not None and not any(abs(re) + abs(im) > 0 for row in fl["sig"] for re, im in row):
         return None
     g = case["gv"]
-    return (case["kind"], fl["npol"], fl["noise_kind"], fl["dtype"], fl["n"], case["G"], case["NF"], g["sps"], g["R"], g["wavelength"])
+    return (case["kind"], fl["npol"], fl["noise_kind"], fl["dtype"], fl["n"], case["G"], case["NF"], g["sps"], g["R"], g["wavelength"],
+            case.get("BW"), tuple((q["sps"], q["R"]) for q in case.get("seq", [])))
